@@ -5,6 +5,7 @@ import (
 	"go/token"
 	"go/types"
 	"math"
+	"strings"
 	"unicode/utf8"
 
 	"golang.org/x/tools/go/ssa"
@@ -524,11 +525,15 @@ type strIter struct {
 	i int
 }
 
-func (th *Thread) rangeIter(x Value, t types.Type) Value {
+func (th *Thread) rangeIter(x Value, t types.Type, fr *frame) Value {
 	x = th.force(x)
 	switch x := x.(type) {
 	case *Map:
-		return &mapIter{m: x}
+		it := &mapIter{m: x}
+		if x != nil {
+			it.perm = th.mapOrder(x, fr)
+		}
+		return it
 	case Str:
 		return &strIter{s: x}
 	}
@@ -538,7 +543,17 @@ func (th *Thread) rangeIter(x Value, t types.Type) Value {
 func (th *Thread) iterNext(it Value, ins *ssa.Next) Value {
 	switch it := it.(type) {
 	case *mapIter:
-		if it.m != nil {
+		if it.m != nil && it.perm != nil {
+			// explored iteration order (Config.MapOrder); entries added during the
+			// iteration are not visited, as Go permits
+			for it.i < len(it.perm) {
+				i := it.perm[it.i]
+				it.i++
+				if i < len(it.m.live) && it.m.live[i] {
+					return Tuple{TrueT, it.m.keys[i], copyVal(it.m.vals[i])}
+				}
+			}
+		} else if it.m != nil {
 			for it.i < len(it.m.keys) {
 				i := it.i
 				it.i++
@@ -566,6 +581,61 @@ func (th *Thread) iterNext(it Value, ins *ssa.Next) Value {
 		return Tuple{TrueT, BV(64, uint64(idx)), r}
 	}
 	panic(unsupported{fmt.Sprintf("next on %T", it)})
+}
+
+// mapOrder forks over the iteration orders of a small map when the range
+// statement is in one of the functions selected by Config.MapOrderIn: all
+// permutations up to 3 live entries, forward and reverse above that.
+func (th *Thread) mapOrder(m *Map, fr *frame) []int {
+	cfg := &th.p.eng.Cfg
+	if cfg.MapOrder < 2 || th.p.w.inInit > 0 || fr == nil {
+		return nil
+	}
+	name := fr.fn.String()
+	sel := false
+	for _, sub := range cfg.MapOrderIn {
+		if strings.Contains(name, sub) {
+			sel = true
+		}
+	}
+	if !sel {
+		return nil
+	}
+	var live []int
+	for i := range m.keys {
+		if m.live[i] {
+			live = append(live, i)
+		}
+	}
+	if len(live) < 2 || len(live) > cfg.MapOrder {
+		return nil
+	}
+	th.p.w.res.Intrinsics["map iteration order explored"]++
+	if len(live) > 3 {
+		if th.p.choose(2) == 1 {
+			for a, b := 0, len(live)-1; a < b; a, b = a+1, b-1 {
+				live[a], live[b] = live[b], live[a]
+			}
+		}
+		return live
+	}
+	n := 2
+	if len(live) == 3 {
+		n = 6
+	}
+	k := th.p.choose(n)
+	perm := append([]int(nil), live...)
+	// k-th permutation (factorial number system)
+	out := make([]int, 0, len(perm))
+	f := n
+	for len(perm) > 0 {
+		f /= len(perm)
+		idx := k / f
+		k %= f
+		out = append(out, perm[idx])
+		perm = append(perm[:idx], perm[idx+1:]...)
+	}
+	return out
 }
 
 func isInvalid(t types.Type) bool {
